@@ -198,6 +198,12 @@ def run_case(ctx, case) -> None:
     via = viable(n)
     N = len(via)
     L = min(limit, N)
+    if rng.random() < 0.1:
+        try:        # a failing call on ANOTHER object (wrong vector length), survived by the caller
+            GameRegretMinimizer(3, 2, plus=plus).regret_min_iteration(np.zeros(7), [[Coalition(3)]])
+        except Exception:
+            pass
+        ctx.count("poison_calls")
     try:
         rm = GameRegretMinimizer(n, limit, plus=plus)
     except Exception as exc:
